@@ -609,10 +609,6 @@ theorem scReduce_b18_spec (l : Limbs) (h : R17 l) :
   and_intros <;> first | trivial | omega
 
 
-def RF (l : Limbs) : Prop :=
-  0 ≤ l.s0 ∧ l.s0 ≤ 2097151 ∧ 0 ≤ l.s1 ∧ l.s1 ≤ 2097151 ∧ 0 ≤ l.s2 ∧ l.s2 ≤ 2097151 ∧ 0 ≤ l.s3 ∧ l.s3 ≤ 2097151 ∧ 0 ≤ l.s4 ∧ l.s4 ≤ 2097151 ∧ 0 ≤ l.s5 ∧ l.s5 ≤ 2097151 ∧ 0 ≤ l.s6 ∧ l.s6 ≤ 2097151 ∧ 0 ≤ l.s7 ∧ l.s7 ≤ 2097151 ∧ 0 ≤ l.s8 ∧ l.s8 ≤ 2097151 ∧ 0 ≤ l.s9 ∧ l.s9 ≤ 2097151 ∧ 0 ≤ l.s10 ∧ l.s10 ≤ 2097151 ∧ 0 ≤ l.s11 ∧ l.s11 ≤ 2097152 ∧
-  l.s12 = 0 ∧ l.s13 = 0 ∧ l.s14 = 0 ∧ l.s15 = 0 ∧ l.s16 = 0 ∧ l.s17 = 0 ∧ l.s18 = 0 ∧ l.s19 = 0 ∧ l.s20 = 0 ∧ l.s21 = 0 ∧ l.s22 = 0 ∧ l.s23 = 0
-
 /-- the last fold and the last round of carries: the result is the canonical representative -/
 theorem scReduce_final (l : Limbs) (h : R18 l) :
     RF (scReduce_b20 (scReduce_b19 l)) ∧ scReduce_b19_safe l ∧ scReduce_b20_safe (scReduce_b19 l) ∧
